@@ -261,6 +261,83 @@ func e7Case(seed uint64, n int, parent string, race bool) Case {
 	}}
 }
 
+
+// e7ReadyCase: the moment a parent becomes ready, many times over.  A chain of
+// filtered clones with filtered subscriptions hanging off every level is built
+// on a root that is not ready yet but already holds objects; then the root
+// becomes ready.  Every node syncs from its parent at that moment; once all is
+// quiet each must equal its filter applied to its parent.  Some events follow,
+// and the check is repeated.
+func e7ReadyCase(seed uint64, n int, race bool) Case {
+	id := fmt.Sprintf("E7/ready-moment/%d/%d/r%v", seed, n, race)
+	rounds := 40
+	return Case{ID: id, Desc: map[string]interface{}{"seed": seed, "n": n, "rounds": rounds, "race_mode": race, "what": "trees built before the root is ready; the readiness transition repeated"}, Bubble: true, Run: func(r *Res) {
+		rng := kit.NewRng(kit.Mix(seed, uint64(n)+770))
+		fam := filterFamily()
+		u := smallUniverse()
+		for round := 0; round < rounds && !r.Failed(); round++ {
+			var core *kit.Core
+			if !race {
+				core = kit.NewCore(&kit.Plan{Seed: rng.U64(), PYield: 200, PSleep: 40, MaxSleep: 60 * time.Microsecond})
+			}
+			g := newRootRig(core, nil)
+			for i := 0; i < 5; i++ {
+				ns, name := u.nss[rng.Intn(2)], u.names[rng.Intn(3)]
+				g.root.Cache().Update(newEv(kcacheUpdate, kit.Pod(ns, name, strconv.Itoa(g.nextRV), u.labels[rng.Intn(len(u.labels))])))
+				g.nextRV++
+			}
+			t := newTree(g.root.Publisher())
+			parent := t.root
+			ok := true
+			for depth := 0; depth < 3 && ok; depth++ {
+				cl, err := t.addChild(parent, []string{"clonewf", "cloneff"}[rng.Intn(2)], fam[[]int{0, 2, 5}[rng.Intn(3)]], true)
+				if err != nil {
+					r.V("C06", "tree-build-error", "%v", err)
+					ok = false
+					break
+				}
+				for k := 0; k < 3; k++ {
+					if _, err := t.addChild(cl, []string{"subwf", "subff", "clonewf"}[k], fam[[]int{0, 2, 3, 5}[rng.Intn(4)]], true); err != nil {
+						r.V("C06", "tree-build-error", "%v", err)
+						ok = false
+					}
+				}
+				parent = cl
+			}
+			if !ok {
+				g.stop(r, "C12")
+				return
+			}
+			for _, nd := range t.nodes {
+				if nd.deferred {
+					f := fam[[]int{0, 2, 3, 5}[rng.Intn(4)]]
+					if nd.refilt(f) == nil {
+						nd.filter, nd.supplied = f, true
+					}
+				}
+			}
+			g.root.MakeReady()
+			core.Barrier()
+			r.Add("ready-moments", 1)
+			if !checkFilteredP(r, t, "C06", fmt.Sprintf("round %d, after the root became ready", round), false) {
+				g.stop(r, "C12")
+				return
+			}
+			for i := 0; i < 4; i++ {
+				if _, err := g.mutate(rng, u); err != nil {
+					r.V("C06", "publish-error", "%v", err)
+					break
+				}
+			}
+			core.Barrier()
+			checkFilteredP(r, t, "C06", fmt.Sprintf("round %d, after 4 further events", round), false)
+			g.stop(r, "C12")
+		}
+		r.Key(id)
+		r.Sample = map[string]interface{}{"rounds": rounds}
+	}}
+}
+
 func init() {
 	register("E7", func(tier string, seed uint64) []Case {
 		var cases []Case
@@ -271,6 +348,9 @@ func init() {
 		m := tierPick(tier, 60, 20000)
 		for i := 0; i < m; i++ {
 			cases = append(cases, e7Case(seed, i, "controller", false))
+		}
+		for i := 0; i < tierPick(tier, 32, 4000); i++ {
+			cases = append(cases, e7ReadyCase(seed, i, i%4 == 3))
 		}
 		return cases
 	})
